@@ -111,6 +111,34 @@ def run_one(ctx, name, build, kind, f, gts, eqs, opts):
             ssr.is_feasible, psr.is_feasible = o1, o2
     if sols is None or not isinstance(sols, list):
         return ('%s: solution recovery returned %r instead of a list' % (name, type(sols))), None, {'name': name}
+    # the same solved problem asked again, with stricter tolerances: the answer obeys the tolerances of THIS call and nothing raises
+    strict = dict(opts, ineq_tol=1e-12, eq_tol=1e-12)
+    with warnings.catch_warnings():
+        warnings.simplefilter('ignore')
+        try:
+            if kind == 'sig':
+                again = so.sig_solrec(prob, **{k: v for k, v in strict.items() if k in ('ineq_tol', 'eq_tol', 'skip_ls')})
+            else:
+                again = so.poly_solrec(prob, **strict)
+            third = so.sig_solrec(prob, **{k: v for k, v in opts.items() if k in ('ineq_tol', 'eq_tol', 'skip_ls')}) if kind == 'sig' else so.poly_solrec(prob, **opts)
+        except Exception as e:
+            return ('%s: a second or third call of solution recovery on the same solved problem raised %s %s'
+                    % (name, type(e).__name__, ' '.join(str(e).split())[:100])), None, {'name': name}
+    con_ = prob.constraints[0]
+    Xg_ = list(con_.X.gts) if getattr(con_, 'X', None) is not None else []
+    Xh_ = list(con_.X.eqs) if getattr(con_, 'X', None) is not None else []
+    for s_ in (again or []):
+        for g_ in list(gts) + Xg_:
+            if float(g_(s_)) < -1e-12:
+                return ('%s: called again with ineq_tol=1e-12, solution recovery returns %s which violates an inequality by %g'
+                        % (name, np.asarray(s_).tolist(), -float(g_(s_)))), None, {'name': name}
+        for h_ in list(eqs) + Xh_:
+            if abs(float(h_(s_))) > 1e-12:
+                return ('%s: called again with eq_tol=1e-12, solution recovery returns %s which violates an equation by %g'
+                        % (name, np.asarray(s_).tolist(), abs(float(h_(s_))))), None, {'name': name}
+    if third is None or len(third) != len(sols):
+        return ('%s: a third call with the original options returns %s points, the first call returned %d'
+                % (name, 'None' if third is None else len(third), len(sols))), None, {'name': name}
     # oracle on the returned points
     it, et = opts.get('ineq_tol', 1e-8), opts.get('eq_tol', 1e-6)
     for (x_, gv_, hv_, itl, etl, res_) in log.calls:
@@ -172,7 +200,7 @@ def run_one(ctx, name, build, kind, f, gts, eqs, opts):
 
 def run(ctx):
     cases = []
-    optsets = [{}, {'zero_tol': 1e-6}, {'skip_ls': True}, {'ineq_tol': 1e-6, 'eq_tol': 1e-4}, {'ineq_tol': 1e-9, 'eq_tol': 0.25}, {'all_signs': False}, {'heuristic_signs': False, 'zero_tol': 1e-12}]
+    optsets = [{}, {'zero_tol': 1e-6}, {'ineq_tol': 0.0, 'eq_tol': 0.0}, {'skip_ls': True}, {'ineq_tol': 1e-6, 'eq_tol': 1e-4}, {'ineq_tol': 1e-9, 'eq_tol': 0.25}, {'all_signs': False}, {'heuristic_signs': False, 'zero_tol': 1e-12}]
     for rep in range(ctx.n(1, 6)):
         for name, build, kind, f, gts, eqs in scenarios(ctx.rng):
             for opts in (optsets if rep == 0 else [ctx.rng.choice(optsets)]):
